@@ -25,7 +25,7 @@ StrDocs == [i \in DOMAIN Strings |-> JStr(Strings[i])]
 
 Unit(pos_, pat_, mn, mx) ==
   LET leaf == ("type" :> <<"string">>) @@ Field("minLength", mn) @@ Field("maxLength", mx) @@ Field("pattern", pat_)
-      okv  == {i \in DOMAIN Strings : StrOK(leaf, Strings[i], {})}
+      okv  == {i \in DOMAIN Strings : StrOK(leaf, Strings[i], {}) /\ StrOK(leaf, Strings[i], Devs)}
       p    == IF pos_ = "optdefault" /\ okv = {} THEN "opt" ELSE pos_
       dflt == IF okv = {} THEN JNull ELSE StrDocs[CHOOSE i \in okv : \A j \in okv : i <= j]
   IN PosUnit("C06", p, leaf, StrDocs, dflt)
@@ -35,20 +35,22 @@ Set == lens # <<>>
 
 ImplAccepts(unit, d, D) == ImplPos(unit, d, LAMBDA v : ImplStrAccepts(Leaf(unit), v, D))
 
-DesignOK == Set =>
-  \A i \in DOMAIN u.docs :
-     LET r == RefVerdict(u, u.docs[i]) IN
-     r # Un => (ImplAccepts(u, u.docs[i], {}) <=> r = Acc)
+\* unit is bound once per state (an operator would be re-evaluated at every use)
+Agree(unit, D) ==
+  \A i \in DOMAIN unit.docs :
+     LET r == DevVerdict(unit, unit.docs[i], D) IN
+     r # Un => (ImplAccepts(unit, unit.docs[i], D) <=> r = Acc)
 
-AsIsOK == Set =>
-  \A i \in DOMAIN u.docs :
-     LET r == DevVerdict(u, u.docs[i], Devs) IN
-     r # Un => (ImplAccepts(u, u.docs[i], Devs) <=> r = Acc)
+\* the intended design (no deviation) satisfies the property on every unit and document
+DesignOK == Set => LET unit == u IN Agree(unit, {})
+\* the two placements of the open deviations agree: switches inside the implementation-shaped model
+\* and switches inside the reference semantics (JV.Valid) predict the same verdicts
+AsIsOK   == Set => LET unit == u IN Agree(unit, Devs)
 
 Init == pos \in Positions /\ pat \in Pats /\ lens = <<>>
 Pick == lens = <<>> /\ lens' \in MinLens \X MaxLens /\ UNCHANGED <<pos, pat>>
 Next == Pick
 Spec == Init /\ [][Next]_vars
 
-Emit == Set => (UnitsFile = "" \/ PrintT("UNIT " \o ToJson(u)))
+Emit == Set => (UnitsFile = "" \/ LET unit == u IN PrintT("UNIT " \o ToJson(unit)))
 =============================================================================
